@@ -40,6 +40,7 @@ type irRun struct {
 	local  *sim.Node
 	remote *sim.Node
 	ref    *sim.StoreRef
+	rref   *sim.StoreRef // the remote peer's replica
 	remE   ipfslog.Entry
 
 	mu       sync.Mutex
@@ -170,6 +171,7 @@ func (r *irRun) setup(tag string) error {
 	if err != nil {
 		return err
 	}
+	r.rref = rref
 	if r.remE, err = r.put(context.Background(), rref, "r", "remote"); err != nil {
 		return err
 	}
@@ -491,6 +493,26 @@ func (r *irRun) run(b Behaviour, idx int) {
 	}
 	if !eqStrMap(want, got) {
 		r.violate("rest-view", fmt.Sprintf("at rest with %d entries the view differs from the last-writer-wins replay of the log", r.ref.S.OpLog().Len()), want, got)
+	}
+	// C01: the second replica receives the same entries one after the other (no overlap): same entries, same view
+	heads := []ipfslog.Entry{}
+	for _, h := range r.ref.S.OpLog().Heads().Slice() {
+		heads = append(heads, copyEntry(h))
+	}
+	if err := r.rref.S.Sync(context.Background(), heads); err == nil {
+		if err := sim.Settle(settleTimeout, r.remote); err == nil && r.rref.S.OpLog().Len() == r.ref.S.OpLog().Len() {
+			r.res.Comparisons++
+			other := map[string]string{}
+			saved := r.ref
+			r.ref = r.rref
+			for _, k := range keys {
+				other[k] = r.shownNow(k)
+			}
+			r.ref = saved
+			if !eqStrMap(other, got) {
+				r.violate("convergence", fmt.Sprintf("two replicas hold the same %d entries; the one that received them while its own writes overlapped shows a different view than the one that received them one after the other", r.ref.S.OpLog().Len()), other, got)
+			}
+		}
 	}
 	if len(r.res.Samples) < 3 {
 		r.res.Samples = append(r.res.Samples, map[string]interface{}{"behaviour": b.ID, "actions": briefSteps(b.Steps), "final_view": got})
